@@ -1,5 +1,6 @@
 // property registry + known-findings list
 #include "props.hpp"
+#include <unistd.h>
 #include <fstream>
 
 namespace vf {
@@ -45,6 +46,17 @@ static std::string field(const std::string &obj, const std::string &k) {
   std::string o;
   for (size_t i = p + 1; i < obj.size() && obj[i] != '"'; i++) { if (obj[i] == '\\' && i + 1 < obj.size()) i++; o += obj[i]; }
   return o;
+}
+std::string rootDir() {
+  if (const char *e = getenv("VERIF_ROOT")) return e;
+  char buf[4096];
+  ssize_t n = readlink("/proc/self/exe", buf, sizeof buf - 1);
+  if (n > 0) {
+    std::string p(buf, n);
+    for (int i = 0; i < 3; i++) { size_t k = p.rfind('/'); if (k == std::string::npos) break; p.resize(k); } // <root>/build/bin/pbt-<hash>
+    if (access((p + "/known_findings.json").c_str(), R_OK) == 0) return p;
+  }
+  return "/verif";
 }
 void kfLoad(const std::string &path) {
   g_kf.clear();
